@@ -62,8 +62,6 @@ Definition batt_ok (b : batt R) : Prop :=
 
 (* readable abbreviations used in the statements *)
 Definition Rsum (l : list R) : R := fold_right Rplus 0 l.
-Definition plugged_batts {F B} (ops : list (@op F B)) : list B :=
-  flat_map (fun o => match o with Plugin _ _ b => [b] | _ => [] end) ops.
 (* first-principles aggregate power [kW] of one recorded column: sum_s V_s * rate_s / 1000 *)
 Fixpoint column_power (net : list (stn (F:=R))) (col : list R) : R :=
   match net, col with
